@@ -1,6 +1,7 @@
 package utils
 
 import (
+	"bytes"
 	"fmt"
 	"io"
 )
@@ -138,6 +139,10 @@ func ReadUint32(rd io.Reader) (uint32, error) {
 
 // ReadNBytes reads n bytes from the reader
 func ReadNBytes(n int, rd io.Reader) ([]byte, error) {
+	if n > maxPrealloc {
+		return readNBytesGrowing(n, rd)
+	}
+
 	var b []byte = make([]byte, n)
 
 	// a single Read may legitimately return less than n bytes, so read until b is full
@@ -149,6 +154,25 @@ func ReadNBytes(n int, rd io.Reader) ([]byte, error) {
 	}
 
 	return b, err
+}
+
+// maxPrealloc is the largest length that is allocated up front. Larger lengths come from a length field
+// inside the data and can't be trusted, so the buffer grows with the data that is really there.
+const maxPrealloc = 64 * 1024
+
+func readNBytesGrowing(n int, rd io.Reader) ([]byte, error) {
+	var bf bytes.Buffer
+	num, err := io.CopyN(&bf, rd, int64(n))
+
+	if num == int64(n) {
+		return bf.Bytes(), nil
+	}
+
+	if err == io.EOF && num > 0 {
+		err = io.ErrUnexpectedEOF
+	}
+
+	return bf.Bytes(), err
 }
 
 // ErrUnexpectedEOF is returned, when an unexspected end of file is reached.
